@@ -6,6 +6,7 @@ Everything structural (reshape, meshgrid, slicing, fancy indexing, broadcasting,
 only supplies meaning for what object arrays cannot do.
 """
 import builtins
+import operator
 import numpy as np
 import z3
 
@@ -554,7 +555,7 @@ class NPProxy:
             from . import fp
             return fp.flinspace(start, stop, num, endpoint).view(SymArr)
         if _is_sym(start) or _is_sym(stop):
-            num = int(num)
+            num = operator.index(num)          # NumPy refuses a non-integer sample count (TypeError)
             div = (num - 1) if endpoint else num
             a = np.empty(num, dtype=object)
             if num == 0:
